@@ -114,6 +114,14 @@ func (w *World) resolveContract(fr *Frame, c *ssa.CallCommon, st *State) (*Contr
 		// the calls made here
 		if fr.top && fr.contract != nil && w.inModule(fn) {
 			if cs := fr.contract.CallSpecs[funcName(fn)]; cs != nil {
+				// ... and the refined function's own (verified) contract still
+				// holds at the call: its requires are obligations, its ensures
+				// are assumed beside the callspec's
+				if base := w.contractFor(fn); base != nil && base != cs && cs.Base == nil {
+					cp := *cs
+					cp.Base = base
+					return &cp, fn
+				}
 				return cs, fn
 			}
 		}
@@ -613,6 +621,47 @@ func (w *World) applyContract(fr *Frame, st *State, ct *Contract, names []string
 			w.sc.assume(implies(st.cond, w.evalBool(post, en.Expr)))
 			w.noteQuantFacts(st.cond, post, en.Expr)
 		}()
+	}
+	if base := ct.Base; base != nil {
+		bvars := map[string]*Val{}
+		for k, v := range extra {
+			bvars[k] = v
+		}
+		for i, n := range base.Params {
+			if i < len(args) {
+				bvars[n] = args[i]
+			}
+		}
+		for k, v := range vars {
+			if strings.HasPrefix(k, "result") {
+				bvars[k] = v
+			}
+		}
+		var bpkg *types.Package
+		if p := w.l.All[base.Pkg]; p != nil {
+			bpkg = p.Types
+		}
+		benvPre := &CEnv{w: w, pkg: bpkg, vars: bvars, cur: pre, old: pre, lets: base.Lets}
+		for i, rq := range base.Requires {
+			lbl := rq.Label
+			if lbl == "" {
+				lbl = fmt.Sprintf("%d", i+1)
+			}
+			props := rq.Props
+			if len(props) == 0 && w.topContract != nil {
+				props = w.topContract.Props
+			}
+			w.oblige("call.pre", fmt.Sprintf("call.%s.%d.pre.own.%s", label, ord, lbl), pre.cond, w.skolemGoal(benvPre, rq.Expr), rq.Star, props)
+		}
+		bpost := &CEnv{w: w, pkg: bpkg, vars: bvars, cur: st, old: pre, lets: base.Lets}
+		for _, en := range base.Ensures {
+			if en.Withdrawn || en.Local {
+				continue
+			}
+			w.sc.assume(implies(st.cond, w.evalBool(bpost, en.Expr)))
+			w.noteQuantFacts(st.cond, bpost, en.Expr)
+		}
+		w.usedContracts[base.Kind+" "+base.Name] = base
 	}
 	w.usedContracts[ct.Kind+" "+ct.Name] = ct
 	return res
